@@ -220,9 +220,17 @@ func (m *Decisions) AfterScan(ctx *h.ScanCtx) []h.Violation {
 		}
 		if needLo >= 0 && !ctx.Faulted {
 			k := len(o.removes) + o.noopRemoves
+			// tainted nodes whose read / write failed (including a node that has vanished from the API
+			// server behind a still-listing cache) cannot be untainted
+			usable := 0
+			for _, n := range g.T {
+				if !o.failedNodes[n.Name] {
+					usable++
+				}
+			}
 			wantUntaint := needLo
-			if wantUntaint > len(g.T) {
-				wantUntaint = len(g.T)
+			if wantUntaint > usable {
+				wantUntaint = usable
 			}
 			if k < wantUntaint || k > needHi {
 				add("C07", "C07/untaint-count", fmt.Sprintf("group %s (%s): %d nodes untainted, need is %d..%d and %d tainted nodes are available", g.Name, d.Class, k, needLo, needHi, len(g.T)))
